@@ -72,9 +72,11 @@ def ref_bounds(kind, par):
 
 def grad_floor(kind, par, t):
     """rounding of (mean - theta) before the division by sigma**2: a few ulps at the scale of the operands (and a few spacings of the
-    sub-normal numbers, where a result of 1e-313 carries ten digits and one of 2e-323 none)"""
+    sub-normal numbers, where a result of 1e-313 carries ten digits and one of 2e-323 none - also of a sub-normal INTERMEDIATE
+    (mean - theta) / sigma, whose rounding by up to a spacing is then divided by sigma once more: theta = 9.4e-318, sigma = 4.2e-5 gave a
+    gradient of -5.2765e-309 with eleven digits in the thorough tier)"""
     if kind == "gauss":
-        return 4 * np.finfo(float).eps * (abs(par[0]) + abs(t)) / par[1] / par[1] + 1e-322
+        return 4 * np.finfo(float).eps * (abs(par[0]) + abs(t)) / par[1] / par[1] + 1e-322 * max(1.0, 1.0 / par[1])
     return 0.0
 
 
